@@ -11,7 +11,7 @@
 (* right-hand side of an equality (TLC evaluates LETs lazily and uncached  *)
 (* in action position).                                                    *)
 (***************************************************************************)
-EXTENDS QRProps, Json, IOUtils
+EXTENDS QRProps, WasmOps, FileOps, Json, IOUtils
 
 Rec == ndJsonDeserialize(IOEnv.TRACE)
 
@@ -225,8 +225,116 @@ CandStep(k, rec, ly) ==
            /\ PrintT(<<"NOTE", ToJson([id |-> rec.id, documented |-> pen, used |-> used, chosen |-> rec.chosen, agree |-> (used = pen)])>>)
            /\ Require(pen[idx] = MinOfSeq(pen), k, rec, "C11", "chosen mask does not minimise the documented penalty"))
 
+(* ---------------- renderers: read-only actions on a built QR code ---------------- *)
+TextStep(k, rec) ==
+  IF rec.kind # "Ok" THEN OkKind(k, rec, "C16")
+  ELSE LET n == rec.size shape == TextShape(n, rec.lines) IN
+       /\ Require(shape, k, rec, "C16", "line count, line width or alphabet")
+       /\ (shape =>
+             /\ Require(TextBorder(n, rec.lines), k, rec, "C16", "border is not one light module on all four sides")
+             /\ Require(TextModules(n, rec.vals, rec.lines), k, rec, "C16", "module not reproduced in place"))
+
+FrameChecks(k, rec, reg, o, n, prop) ==
+  IF ~reg.hasImage THEN TRUE
+  ELSE IF ~HasFrame(reg, o) THEN Require(FALSE, k, rec, prop, "frame rectangle or image element missing")
+  ELSE LET f == o.rects[2] im == o.images[1] IN
+       IF IsDefaultPlacement(reg)
+       THEN /\ Require(FrameDefault(n, reg.margin, f, im), k, rec, prop, "default frame is not a centred module-aligned square below 40% and clear of the finders")
+            /\ Require(FrameImageCentred(f, im, 12) /\ im.w <= f.w, k, rec, prop, "image not centred in the frame or larger than it")
+       ELSE Require(FrameOverrides(reg, n, f, im), k, rec, prop, "explicit size / gap / position not honoured")
+
+SvgStep(k, rec, full) ==
+  IF rec.kind # "Ok" THEN OkKind(k, rec, "C12")
+  ELSE LET reg == RegsAfter(rec.program) o == rec.obs n == rec.size IN
+       /\ Require(rec.qr_unchanged = 1, k, rec, "C14", "rendering modified the QR code")
+       /\ Require(o.wellformed = 1, k, rec, "C12", "document is not well-formed XML")
+       /\ (o.wellformed = 1 =>
+             /\ Require(SvgStructure(reg, n, o), k, rec, "C12", "root element, viewBox or background rectangle geometry")
+             /\ Require(SvgBackground(reg, o), k, rec, "C12", "background colour")
+             /\ Require(SvgImage(reg, o), k, rec, "C12", "image element count or href")
+             /\ (full =>
+                   /\ Require(SvgLayerCount(reg, o), k, rec, "C12", "number of shape layers")
+                   /\ Require(SvgCells(reg, n, rec.vals, o), k, rec, "C12", "sub-paths are not exactly the dark modules")
+                   /\ Require(SvgLayerColors(reg, o), k, rec, "C12", "layer colour"))
+             /\ FrameChecks(k, rec, reg, o, n, "C18"))
+
+\* default frame over all 40 versions for one (frame shape, margin): every row judged, plus monotonicity in the version
+FrameSweepStep(k, rec) ==
+  IF rec.kind # "Ok" THEN OkKind(k, rec, "C18")
+  ELSE LET rows == rec.rows
+           rowOK(i) == /\ rows[i].wellformed = 1 /\ Len(rows[i].rects) = 2 /\ Len(rows[i].images) = 1 /\ rows[i].v = i
+           shape == Len(rows) = 40 /\ \A i \in 1..40 : rowOK(i)
+       IN /\ Require(shape, k, rec, "C18", "frame rectangle or image element missing")
+          /\ (shape =>
+                /\ Require(\A i \in 1..40 : FrameDefault(rows[i].size, rec.margin, rows[i].rects[2], rows[i].images[1]), k, rec, "C18", "default frame is not a centred module-aligned square below 40% and clear of the finders")
+                /\ Require(\A i \in 1..40 : FrameImageCentred(rows[i].rects[2], rows[i].images[1], 12) /\ rows[i].images[1].w <= rows[i].rects[2].w, k, rec, "C18", "image not centred in the frame or larger than it")
+                /\ Require(\A i \in 1..39 : rows[i+1].rects[2].w >= rows[i].rects[2].w, k, rec, "C18", "frame side shrinks as the version grows"))
+
+RasterStep(k, rec) ==
+  IF rec.kind # "Ok" THEN OkKind(k, rec, "C13")
+  ELSE LET reg == RegsAfter(rec.program) o == rec.obs n == rec.size
+           cells == n + 2*reg.margin
+           side == RasterSide(reg, n, o)
+       IN /\ Require(rec.qr_unchanged = 1, k, rec, "C14", "rendering modified the QR code")
+          /\ Require(side, k, rec, "C13", "pixmap is not the expected square")
+          /\ (side =>
+                /\ ((RasterColorsJudgeable(reg) /\ (o.w >= 4*cells \/ (AllSquare(reg) /\ o.scale_int >= 1))) =>
+                       Require(RasterCentres(reg, n, rec.vals, o), k, rec, "C13", "centre pixel of a cell is not the module / background colour"))
+                /\ ((AllSquare(reg) /\ o.scale_int >= 1) =>
+                       Require(RasterUniform(reg, n, o), k, rec, "C13", "square module cell is not uniform at integer scale")))
+          /\ Require(RasterPng(o), k, rec, "C13", "PNG bytes do not decode to the pixmap")
+
+(* ---------------- FileOp: one complete to_file call under an injected fault (C19) ---------------- *)
+FileStep(k, rec) ==
+  LET off == IF rec.fault = "EFBIG" THEN AbsOff(rec.limit, rec.len) ELSE 0
+      fin == F_Run(rec.fault, off)
+  IN /\ Require(rec.ret \in {"Ok", "Err"}, k, rec, "C19", "to_file did not return a value: " \o rec.ret)
+     /\ Require(rec.ret \notin {"Ok", "Err"} \/ rec.ret = fin.ret, k, rec, "C19",
+                 IF fin.ret = "Err" THEN "Ok returned although the file could not be created or fully written" ELSE "error returned although nothing prevented the write")
+     /\ Require(rec.ret # "Ok" \/ rec.fault = "ENOSPC" \/ rec.file = "equal", k, rec, "C19", "Ok returned but the file does not hold the in-memory rendering")
+
+(* ---------------- WASM facade on the host: setter program, then one export (C17) ---------------- *)
+WasmSvgStep(k, rec) ==
+  LET w == W_After(rec.program)
+      b == [input |-> rec.content, ecl |-> w.ecl, mode |-> -1, version |-> w.version, mask |-> -1]
+      expect == ExpectedOutcome(b)
+      nat == rec.native.out
+      reg == NativeOf(w) o == rec.obs
+  IN /\ Require(rec.kind = "Ok", k, rec, "C17", "entry point or setter trapped: " \o rec.kind)
+     /\ (rec.kind = "Ok" =>
+          /\ Require(rec.native.opts.ecl = w.ecl /\ rec.native.opts.version = w.version, k, rec, "TOOL", "harness and model disagree on the level/version registers")
+          /\ IF expect # "Ok" THEN Require(rec.empty = 1, k, rec, "C17", "content cannot be encoded but the SVG export is not empty")
+             ELSE /\ Require(rec.empty = 0, k, rec, "C17", "empty SVG export for encodable content")
+                  /\ ((rec.empty = 0 /\ nat.kind = "Ok") =>
+                        /\ Require(w.havoc # {} \/ rec.native_eq = 1, k, rec, "C17", "SVG export differs from the native builder output for the same settings")
+                        /\ (o.wellformed = 1 =>
+                              /\ Require(SvgStructure(reg, nat.size, o) /\ SvgLayerCount(reg, o) /\ SvgCells(reg, nat.size, nat.vals, o) /\ SvgImage(reg, o),
+                                          k, rec, "C17", "SVG export does not draw the native symbol with the configured shape, margin and image")
+                              /\ Require("bg" \in w.havoc \/ SvgBackground(reg, o), k, rec, "C17", "background colour differs from the configured one")
+                              /\ Require("module" \in w.havoc \/ SvgLayerColors(reg, o), k, rec, "C17", "module colour differs from the configured one")
+                              /\ ("pos" \in w.havoc \/ FrameChecks(k, rec, reg, o, nat.size, "C17"))
+                              /\ Require(~reg.hasImage \/ "imgBg" \in w.havoc \/ Len(o.rects) < 2 \/ o.rects[2].fill = reg.imgBg.txt, k, rec, "C17", "frame colour differs from the configured one"))))
+WasmQrStep(k, rec) ==
+  LET b == [input |-> rec.content, ecl |-> "none", mode |-> -1, version |-> -1, mask |-> -1]
+      expect == ExpectedOutcome(b)
+      nat == rec.native.out
+  IN /\ Require(rec.kind = "Ok", k, rec, "C17", "entry point or setter trapped: " \o rec.kind)
+     /\ (rec.kind = "Ok" =>
+           IF expect # "Ok" THEN Require(rec.len = 0, k, rec, "C17", "content cannot be encoded but the matrix export is not empty")
+           ELSE /\ Require(rec.len > 0 /\ rec.all01 = 1 /\ rec.side * rec.side = rec.len, k, rec, "C17", "matrix export is not size*size bytes of 0/1")
+                /\ Require(nat.kind # "Ok" \/ (rec.side = nat.size /\ rec.vals = nat.vals), k, rec, "C17", "matrix export differs from the native build with default options"))
+
 StepOf(k, rec, ly, s) ==
   CASE rec.ev = "Build" -> BuildStep(k, rec, ly, s)
+    [] rec.ev = "WasmSvg" -> (IF WasmSvgStep(k, rec) THEN s ELSE s)
+    [] rec.ev = "WasmQr" -> (IF WasmQrStep(k, rec) THEN s ELSE s)
+    [] rec.ev = "FileOp" -> (IF FileStep(k, rec) THEN s ELSE s)
+    [] rec.ev = "FileSkip" -> s
+    [] rec.ev = "Text" -> (IF TextStep(k, rec) THEN s ELSE s)
+    [] rec.ev = "Svg" -> (IF SvgStep(k, rec, TRUE) THEN s ELSE s)
+    [] rec.ev = "SvgFrame" -> (IF SvgStep(k, rec, FALSE) THEN s ELSE s)
+    [] rec.ev = "FrameSweep" -> (IF FrameSweepStep(k, rec) THEN s ELSE s)
+    [] rec.ev = "Raster" -> (IF RasterStep(k, rec) THEN s ELSE s)
     [] rec.ev = "Corrupt" -> CorruptStep(k, rec, ly, s)
     [] rec.ev = "VersionGetRun" -> (IF VGetStep(k, rec) THEN s ELSE s)
     [] rec.ev = "Encode" -> (IF EncodeStep(k, rec) THEN s ELSE s)
